@@ -937,7 +937,13 @@ impl Instructions<Code, Temporary, Immediate> for Backend {
         match temporary {
             Temporary::Register(register) => instructions.push(Code::MOVI(register, immediate)),
             Temporary::Spill(position) => {
-                instructions.push(Code::MOVIM(STACK, stack_offset(position), immediate));
+                if i32::try_from(immediate.val).is_ok() {
+                    instructions.push(Code::MOVIM(STACK, stack_offset(position), immediate));
+                } else {
+                    // a store of an immediate can only encode 32 bits, so we go through a register
+                    instructions.push(Code::MOVI(TEMP, immediate));
+                    instructions.push(Code::MOVS(TEMP, STACK, stack_offset(position)));
+                }
             }
         }
     }
